@@ -69,13 +69,68 @@ def instance(app):
     return app == z3.substitute(body, *zip(params, app.children()))
 
 
+def _ground_terms_of_sort(terms, sort, seen):
+    out = []
+    stack = list(terms)
+    while stack:
+        t = stack.pop()
+        i = t.get_id()
+        if i in seen:
+            continue
+        seen.add(i)
+        if z3.is_quantifier(t):
+            continue
+        if z3.is_app(t):
+            if t.sort().eq(sort) and not z3.is_var(t):
+                out.append(t)
+            stack.extend(t.children())
+    return out
+
+
+def env_quantified(terms):
+    """hypotheses that are (or define a predicate as) a universal quantification over valuations only:
+    ForAll rho: Env. body   /   ForAll(...) == p   - instantiated eagerly at the ground valuations in sight,
+    so that the definitional instances of the spec functions applied to them can be generated"""
+    out = []
+    for t in terms:
+        q = None
+        if z3.is_quantifier(t) and t.is_forall():
+            q = t
+        elif z3.is_eq(t) and z3.is_quantifier(t.arg(0)) and t.arg(0).is_forall():
+            q = t.arg(0)
+        elif z3.is_eq(t) and z3.is_quantifier(t.arg(1)) and t.arg(1).is_forall():
+            q = t.arg(1)
+        if q is not None and q.num_vars() == 1 and q.var_sort(0).kind() == z3.Z3_UNINTERPRETED_SORT:
+            holds_if = None if q is t else (t.arg(1) if q is t.arg(0) or q.eq(t.arg(0)) else t.arg(0))
+            out.append((q, holds_if))
+    return out
+
+
 def fuel(terms, depth, limit=150):
-    """definitional instances for the applications in terms, `depth` rounds"""
+    """definitional instances for the applications in terms, `depth` rounds (each round also instantiates the
+    valuation-quantified hypotheses at the ground valuations that have appeared)"""
     insts = []
     done = set()
     frontier = list(terms)
+    envq = env_quantified(terms)
+    env_seen = set()
+    env_done = set()
     for _ in range(depth):
         new = []
+        if envq:
+            sort = envq[0][0].var_sort(0)
+            for g in _ground_terms_of_sort(frontier, sort, env_seen):
+                for q, cond in envq:
+                    k = (q.get_id(), g.get_id())
+                    if k in env_done or not q.var_sort(0).eq(g.sort()):
+                        continue
+                    env_done.add(k)
+                    inst = z3.substitute_vars(q.body(), g)
+                    if cond is not None:
+                        inst = z3.Implies(cond, inst)
+                    insts.append(inst)
+                    new.append(inst)
+        frontier = frontier + new
         for app in applications(frontier):
             if app.get_id() in done:
                 continue
